@@ -42,24 +42,37 @@ const (
 	FExtra = "extra"
 )
 
-type entStrategy struct{ typ string }
+type entStrategy struct {
+	typ   string
+	keyed bool // scalar fields are persisted under "<field>_k" while the symbols keep the plain names
+}
+
+// PersistKey returns the bucket key a field is persisted under (and a FieldChecker is asked about).
+func PersistKey(keyed bool, field string) string {
+	if keyed && (field == FName || field == FAlias || field == FNote || field == FRef) {
+		return field + "_k"
+	}
+	return field
+}
+
+func (s entStrategy) k(f string) string { return PersistKey(s.keyed, f) }
 
 func (s entStrategy) NewEntity() *Ent { return &Ent{Type: s.typ} }
 func (s entStrategy) FillEntity(e *Ent, b *boltz.TypedBucket) {
 	e.LoadBaseValues(b)
-	e.Name = b.GetStringWithDefault(FName, "")
-	e.Alias = b.GetString(FAlias)
+	e.Name = b.GetStringWithDefault(s.k(FName), "")
+	e.Alias = b.GetString(s.k(FAlias))
 	e.Roles = b.GetStringList(FRoles)
-	e.Note = b.GetStringWithDefault(FNote, "")
-	e.Ref = b.GetString(FRef)
+	e.Note = b.GetStringWithDefault(s.k(FNote), "")
+	e.Ref = b.GetString(s.k(FRef))
 }
 func (s entStrategy) PersistEntity(e *Ent, ctx *boltz.PersistContext) {
 	e.SetBaseValues(ctx)
-	ctx.SetString(FName, e.Name)
-	ctx.SetStringP(FAlias, e.Alias)
+	ctx.SetString(s.k(FName), e.Name)
+	ctx.SetStringP(s.k(FAlias), e.Alias)
 	ctx.SetStringList(FRoles, e.Roles)
-	ctx.SetString(FNote, e.Note)
-	ctx.SetStringP(FRef, e.Ref)
+	ctx.SetString(s.k(FNote), e.Note)
+	ctx.SetStringP(s.k(FRef), e.Ref)
 }
 
 type kidStrategy struct {
@@ -97,6 +110,8 @@ type StoreCfg struct {
 	RefTo       string `json:"refTo,omitempty"`       // store the ref field points at
 	RefWiring   string `json:"refWiring,omitempty"`
 	System      bool   `json:"system,omitempty"` // system entity enforcement constraint
+	// Keyed: symbols are registered with AddSymbolWithKey / AddFkSymbolWithKey, the persisted key differs from the symbol name
+	Keyed bool `json:"keyed,omitempty"`
 }
 
 func (c StoreCfg) BackSym() string { return "refs_" + c.Name }
@@ -115,6 +130,8 @@ type LinkCfg struct {
 }
 
 type WorldCfg struct {
+	// BasePath of every top-level store (default ["root"]). Deeper paths exercise path slices with spare capacity.
+	BasePath []string   `json:"basePath,omitempty"`
 	Stores   []StoreCfg `json:"stores"`
 	Children []ChildCfg `json:"children,omitempty"`
 	Links    []LinkCfg  `json:"links,omitempty"`
@@ -135,6 +152,19 @@ type World struct {
 
 func (w *World) Close() { w.Z.Close() }
 
+// Base returns the base path of the world's top-level stores.
+func (c WorldCfg) Base() []string {
+	if len(c.BasePath) == 0 {
+		return []string{"root"}
+	}
+	return c.BasePath
+}
+
+// PathOf returns base path + elems as a fresh slice.
+func (c WorldCfg) PathOf(elems ...string) []string {
+	return append(append([]string{}, c.Base()...), elems...)
+}
+
 func notFoundF(typ string) func(id string) error {
 	return func(id string) error { return boltz.NewNotFoundError(typ, "id", id) }
 }
@@ -146,9 +176,10 @@ func NewWorld(cfg WorldCfg) (*World, error) {
 		Links: map[string]boltz.LinkCollection{}, RcLinks: map[string]boltz.RefCountedLinkCollection{}}
 	for _, sc := range cfg.Stores {
 		st := boltz.NewBaseStore(boltz.StoreDefinition[*Ent]{
-			EntityType:      sc.Name,
-			EntityStrategy:  entStrategy{typ: sc.Name},
-			BasePath:        []string{"root"},
+			EntityType:     sc.Name,
+			EntityStrategy: entStrategy{typ: sc.Name, keyed: sc.Keyed},
+			// built by append on purpose: like a caller assembling the path, the slice may have spare capacity
+			BasePath:        append(make([]string, 0, len(cfg.Base())+3), cfg.Base()...),
 			EntityNotFoundF: notFoundF(sc.Name),
 		})
 		st.InitImpl(st)
@@ -160,10 +191,10 @@ func NewWorld(cfg WorldCfg) (*World, error) {
 	for _, sc := range cfg.Stores {
 		st := w.Stores[sc.Name]
 		st.AddExtEntitySymbols()
-		nameSym := st.AddSymbol(FName, ast.NodeTypeString)
-		aliasSym := st.AddSymbol(FAlias, ast.NodeTypeString)
+		nameSym := st.AddSymbolWithKey(FName, ast.NodeTypeString, PersistKey(sc.Keyed, FName))
+		aliasSym := st.AddSymbolWithKey(FAlias, ast.NodeTypeString, PersistKey(sc.Keyed, FAlias))
 		rolesSym := st.AddSetSymbol(FRoles, ast.NodeTypeString)
-		st.AddSymbol(FNote, ast.NodeTypeString)
+		st.AddSymbolWithKey(FNote, ast.NodeTypeString, PersistKey(sc.Keyed, FNote))
 		if sc.UniqueName {
 			w.Unique[sc.Name+"."+FName] = st.AddUniqueIndex(nameSym)
 		}
@@ -174,9 +205,9 @@ func NewWorld(cfg WorldCfg) (*World, error) {
 			w.SetIdx[sc.Name+"."+FRoles] = st.AddSetIndex(rolesSym)
 		}
 		if sc.RefTo != "" {
-			refSyms[sc.Name] = st.AddFkSymbol(FRef, w.Stores[sc.RefTo])
+			refSyms[sc.Name] = st.AddFkSymbolWithKey(FRef, PersistKey(sc.Keyed, FRef), w.Stores[sc.RefTo])
 		} else {
-			st.AddSymbol(FRef, ast.NodeTypeString)
+			st.AddSymbolWithKey(FRef, ast.NodeTypeString, PersistKey(sc.Keyed, FRef))
 		}
 	}
 	// pass 2: fk wiring (needs the target stores' back-reference symbols)
@@ -278,7 +309,7 @@ func NewWorld(cfg WorldCfg) (*World, error) {
 		for _, sc := range cfg.Stores {
 			w.Stores[sc.Name].InitializeIndexes(ctx.Tx(), holder)
 			// make sure the entities bucket exists so that reads on an empty store behave uniformly
-			boltz.GetOrCreatePath(ctx.Tx(), "root", sc.Name)
+			boltz.GetOrCreatePath(ctx.Tx(), cfg.PathOf(sc.Name)...)
 		}
 		for _, cc := range cfg.Children {
 			w.Kids[cc.Name].InitializeIndexes(ctx.Tx(), holder)
@@ -712,6 +743,39 @@ func (m *Model) Delete(store, id string, system bool) []string {
 	trial := m.Clone()
 	if r := trial.deleteRec(parent, id, system, map[string]bool{}); r != OK {
 		return []string{r}
+	}
+	*m = *trial
+	return nil
+}
+
+// DeleteWhere predicts and applies "delete every entity of the store's population whose name equals the value".
+func (m *Model) DeleteWhere(store, name string, system bool) []string {
+	parent := m.BaseStore(store)
+	cc, viaChild := m.childCfg(store)
+	if viaChild && cc.Extended {
+		return []string{Unspecified}
+	}
+	var ids []string
+	for id, e := range m.Ents[parent] {
+		if e.Name != name {
+			continue
+		}
+		if viaChild {
+			if _, has := e.Kid[store]; !has {
+				continue // a plain parent entity is not part of the child store's population
+			}
+		}
+		ids = append(ids, id)
+	}
+	sort.Strings(ids)
+	trial := m.Clone()
+	for _, id := range ids {
+		if _, still := trial.Ents[parent][id]; !still {
+			continue
+		}
+		if r := trial.deleteRec(parent, id, system, map[string]bool{}); r != OK {
+			return []string{r}
+		}
 	}
 	*m = *trial
 	return nil
